@@ -371,3 +371,327 @@ Proof.
   intros Hcs Hk Ht. rewrite read_chunk_free by exact Hcs. unfold pc_read_spec, pc_scan_spec.
   rewrite Hk. cbn [bind]. rewrite Ht. cbn [bind]. eexists. reflexivity.
 Qed.
+
+(* ====================== the row chunks of the missing-value scan (R2.19) ====================== *)
+Lemma pc_index_in c columns i : pc_index c columns = Some i -> In c columns.
+Proof.
+  revert i. induction columns as [|y r IH]; intros i H; [discriminate|]. cbn [pc_index] in H.
+  destruct (str_eqb c y) eqn:E.
+  - left. symmetry. apply b_str_eqb_eq. exact E.
+  - destruct (pc_index c r) as [j|]; [|discriminate]. right. apply (IH j). reflexivity.
+Qed.
+
+(* the derived view: a column is in [pc_nan_cols] iff one of its cells is missing *)
+Lemma mem_nan_cols columns rowsm c :
+  mem_str c (pc_nan_cols columns rowsm) = existsb (fun rm => pc_miss columns rm c) rowsm.
+Proof.
+  unfold pc_nan_cols. destruct (existsb (fun rm => pc_miss columns rm c) rowsm) eqn:E.
+  - apply b_mem_str_in. apply filter_In. split; [|exact E].
+    apply existsb_exists in E. destruct E as (rm & _ & Hm). unfold pc_miss in Hm.
+    destruct (pc_index c columns) as [i|] eqn:Ei; [|discriminate]. apply (pc_index_in _ _ _ Ei).
+  - apply b_mem_str_notin. intros Hin. apply filter_In in Hin. destruct Hin as [_ Hin]. congruence.
+Qed.
+
+Lemma nan_cols_spec columns rowsm c :
+  In c (pc_nan_cols columns rowsm) <-> exists rm, In rm rowsm /\ pc_miss columns rm c = true.
+Proof.
+  rewrite <- b_mem_str_in, mem_nan_cols, existsb_exists. reflexivity.
+Qed.
+
+Lemma or_row_map {A} (a b : A -> bool) cols :
+  pc_or_row (map a cols) (map b cols) = map (fun c => a c || b c) cols.
+Proof.
+  unfold pc_or_row. induction cols as [|c cols IH]; [reflexivity|]. cbn [map combine fst snd]. f_equal. exact IH.
+Qed.
+
+(* na_mask.any(axis=0): OR over the chunk rows = "missing in some chunk" *)
+Lemma fold_or_rows columns cols chunks : forall a : str -> bool,
+  fold_left pc_or_row (map (pc_any_row columns cols) chunks) (map a cols)
+  = map (fun c => a c || existsb (fun ch => existsb (fun rm => pc_miss columns rm c) ch) chunks) cols.
+Proof.
+  induction chunks as [|ch chunks IH]; intros a; cbn [map fold_left existsb].
+  - apply map_ext. intros c. rewrite orb_false_r. reflexivity.
+  - change (pc_any_row columns cols ch) with (map (fun c => existsb (fun rm => pc_miss columns rm c) ch) cols).
+    rewrite or_row_map, IH. apply map_ext. intros c. rewrite orb_assoc. reflexivity.
+Qed.
+
+Lemma existsb_concat {A} (f : A -> bool) ls : existsb f (concat ls) = existsb (existsb f) ls.
+Proof.
+  induction ls as [|l ls IH]; [reflexivity|]. cbn [concat existsb]. rewrite existsb_app, IH. reflexivity.
+Qed.
+
+Lemma combine_filter_map {A} (g : A -> bool) cols :
+  map fst (filter snd (combine cols (map g cols))) = filter g cols.
+Proof.
+  induction cols as [|c cols IH]; [reflexivity|]. cbn [map combine filter snd].
+  destruct (g c); cbn [map fst]; rewrite IH; reflexivity.
+Qed.
+
+Lemma flat_map_map {A B C} (f : B -> list C) (g : A -> B) l :
+  flat_map f (map g l) = flat_map (fun x => f (g x)) l.
+Proof. induction l as [|x l IH]; [reflexivity|]. cbn [map flat_map]. rewrite IH. reflexivity. Qed.
+
+Lemma flat_map_if {A B} (P : A -> bool) (X : list B) l :
+  flat_map (fun x => if P x then X else []) l = flat_map (fun _ => X) (filter P l).
+Proof.
+  induction l as [|x l IH]; [reflexivity|]. cbn [flat_map filter].
+  destruct (P x); cbn [flat_map app]; rewrite IH; reflexivity.
+Qed.
+
+Lemma filter_flat_map {A B} (f : B -> bool) (g : A -> list B) l :
+  filter f (flat_map g l) = flat_map (fun x => filter f (g x)) l.
+Proof.
+  induction l as [|x l IH]; [reflexivity|]. cbn [flat_map]. rewrite filter_app, IH. reflexivity.
+Qed.
+
+(* one column slice: the frames are the identifier cells of every row chunk (when the slice holds the
+   identifier columns), the dropped columns are those with a missing cell in some row of the file *)
+Lemma slice_rc_spec columns k chunks sl :
+  pc_slice_rc columns k chunks sl =
+  ((if pc_subset (k_spectra k ++ [k_label k]) sl then map (pc_frame columns k) chunks else []),
+   filter (fun c => mem_str c (pc_nan_cols columns (concat chunks)))
+          (if pc_subset (k_spectra k ++ [k_label k]) sl
+           then filter (fun c => negb (mem_str c (k_spectra k ++ [k_label k]))) sl else sl)).
+Proof.
+  unfold pc_slice_rc. cbv zeta. f_equal.
+  rewrite (fold_or_rows columns _ chunks (fun _ => false)). cbn [orb].
+  rewrite combine_filter_map. apply filter_ext. intros c.
+  rewrite mem_nan_cols, existsb_concat. reflexivity.
+Qed.
+
+Lemma frames_fst columns k chunks :
+  map fst (concat (map (pc_frame columns k) chunks))
+  = map (fun r => map (pc_cell columns r) (k_spectra k)) (map fst (concat chunks)).
+Proof.
+  induction chunks as [|ch chunks IH]; [reflexivity|]. cbn [map concat].
+  rewrite !map_app, IH. f_equal. unfold pc_frame. rewrite !map_map. reflexivity.
+Qed.
+
+Lemma frames_snd columns k chunks :
+  map snd (concat (map (pc_frame columns k) chunks))
+  = map (fun r => pc_cell columns r (k_label k)) (map fst (concat chunks)).
+Proof.
+  induction chunks as [|ch chunks IH]; [reflexivity|]. cbn [map concat].
+  rewrite !map_app, IH. f_equal. unfold pc_frame. rewrite !map_map. reflexivity.
+Qed.
+
+Lemma frames_rep {A B C} (h : list B -> list C) (X : list (list B)) (Y : list C) (L : list A) :
+  h (concat X) = Y -> (forall a b, h (a ++ b) = h a ++ h b) ->
+  h (concat (flat_map (fun _ => X) L)) = flat_map (fun _ => Y) L.
+Proof.
+  intros HX Happ. induction L as [|x L IH]; cbn [flat_map].
+  - cbn [concat]. specialize (Happ [] []). cbn [app] in Happ.
+    destruct (h []) as [|c r]; [reflexivity|]. exfalso.
+    assert (length (c :: r) = length ((c :: r) ++ c :: r)) as Hl by (rewrite <- Happ; reflexivity).
+    rewrite app_length in Hl. cbn [length] in Hl. lia.
+  - rewrite concat_app, Happ, HX, IH. reflexivity.
+Qed.
+
+(* ANY partition of the rows into row chunks (at least one chunk) gives the result of the column-chunk
+   model on the concatenated rows with the derived [nan_cols]; no assumption on [k] *)
+Theorem scan_with_as_scan cc k columns lb chunks : chunks <> [] ->
+  pc_scan_with (pc_slice_rc columns k) cc k columns lb chunks
+  = pc_scan cc k columns lb (map fst (concat chunks)) (pc_nan_cols columns (concat chunks)).
+Proof.
+  intros Hne. unfold pc_scan_with, pc_scan. cbv zeta.
+  destruct (Nat.eqb cc 0); [reflexivity|].
+  set (ids := k_spectra k ++ [k_label k]).
+  set (slices := pc_chunks_with_ids (filter (fun c => negb (mem_str c (k_nonfeat k))) columns) ids cc).
+  rewrite (map_ext _ _ (slice_rc_spec columns k chunks)). fold ids.
+  rewrite !flat_map_map. cbn [fst snd].
+  rewrite flat_map_if. rewrite <- filter_flat_map.
+  remember (filter (fun sl => pc_subset ids sl) slices) as idsl eqn:Eidsl.
+  destruct idsl as [|s0 rest]; [reflexivity|].
+  destruct (flat_map (fun _ => map (pc_frame columns k) chunks) (s0 :: rest)) as [|fr frs] eqn:Efr.
+  { exfalso. cbn [flat_map] in Efr. destruct chunks as [|ch chunks]; [congruence|discriminate]. }
+  rewrite <- Efr.
+  rewrite (frames_rep (map snd) _ _ (s0 :: rest) (frames_snd columns k chunks) (@map_app _ _ snd)).
+  rewrite (frames_rep (map fst) _ _ (s0 :: rest) (frames_fst columns k chunks) (@map_app _ _ fst)).
+  reflexivity.
+Qed.
+
+(* the reader's row chunks are a partition of the rows, with at least one chunk unless the table has
+   no row and the reader yields nothing for it *)
+Lemma row_chunks_concat {A} ec cr (rows : list A) : 1 <= cr -> concat (pc_row_chunks ec cr rows) = rows.
+Proof.
+  intros Hcr. unfold pc_row_chunks. destruct rows as [|x l]; [destruct ec; reflexivity|].
+  apply chunks_concat. exact Hcr.
+Qed.
+
+Lemma row_chunks_nonempty {A} ec cr (rows : list A) :
+  rows <> [] \/ ec = true -> pc_row_chunks ec cr rows <> [].
+Proof.
+  intros H. unfold pc_row_chunks. destruct rows as [|x l].
+  - destruct H as [H|H]; [congruence|subst ec; discriminate].
+  - unfold pc_chunks. cbn [length pc_chunks_aux]. discriminate.
+Qed.
+
+(* every chunk size that reaches the end of the table gives the same single chunk *)
+Lemma row_chunks_large {A} ec c1 c2 (rows : list A) :
+  1 <= c1 -> 1 <= c2 -> length rows <= c1 -> length rows <= c2 ->
+  pc_row_chunks ec c1 rows = pc_row_chunks ec c2 rows.
+Proof.
+  intros H1 H2 L1 L2. unfold pc_row_chunks. destruct rows as [|x l]; [reflexivity|].
+  rewrite !chunks_small by (assumption || discriminate). reflexivity.
+Qed.
+
+Theorem scan_rc_as_scan ec cr cc k columns lb rowsm :
+  1 <= cr -> rowsm <> [] \/ ec = true ->
+  pc_scan_rc ec cr cc k columns lb rowsm
+  = pc_scan cc k columns lb (map fst rowsm) (pc_nan_cols columns rowsm).
+Proof.
+  intros Hcr Hne. unfold pc_scan_rc.
+  destruct (Nat.eqb cc 0) eqn:Ecc; [unfold pc_scan; rewrite Ecc; reflexivity|].
+  destruct (Nat.eqb_spec cr 0) as [E0|_]; [lia|].
+  rewrite scan_with_as_scan by (apply row_chunks_nonempty; exact Hne).
+  rewrite row_chunks_concat by exact Hcr. reflexivity.
+Qed.
+
+(* the link between the two interfaces of the model *)
+Theorem read_rc_as_read ec cr cc columns o lb rowsm :
+  1 <= cr -> rowsm <> [] \/ ec = true ->
+  pc_read_rc ec cr cc columns o lb rowsm
+  = pc_read cc columns o lb (map fst rowsm) (pc_nan_cols columns rowsm).
+Proof.
+  intros Hcr Hne. unfold pc_read_rc, pc_read.
+  destruct (pc_classify columns o) as [k|e]; [|reflexivity]. cbn [bind].
+  apply scan_rc_as_scan; assumption.
+Qed.
+
+(* row-chunk AND column-chunk independence *)
+Theorem read_rc_chunk_free ec cr cc columns o lb rowsm :
+  1 <= cr -> 1 <= cc -> rowsm <> [] \/ ec = true ->
+  pc_read_rc ec cr cc columns o lb rowsm
+  = pc_read_spec columns o lb (map fst rowsm) (pc_nan_cols columns rowsm).
+Proof.
+  intros Hcr Hcc Hne. rewrite read_rc_as_read by assumption. apply read_chunk_free. exact Hcc.
+Qed.
+
+(* the same for an arbitrary partition of the rows (row batches of any lengths, empty ones included) *)
+Theorem scan_parts_chunk_free cc k columns lb chunks :
+  1 <= cc -> class_ok k -> chunks <> [] ->
+  pc_scan_with (pc_slice_rc columns k) cc k columns lb chunks
+  = pc_scan_spec k columns lb (map fst (concat chunks)) (pc_nan_cols columns (concat chunks)).
+Proof.
+  intros Hcc Hk Hne. rewrite scan_with_as_scan by exact Hne. apply scan_chunk_free; assumption.
+Qed.
+
+(* the chunk-free content of a successful parse, in terms of the cells *)
+Theorem read_rc_result ec cr cc columns o lb rowsm d :
+  1 <= cr -> 1 <= cc -> rowsm <> [] \/ ec = true ->
+  pc_read_rc ec cr cc columns o lb rowsm = Ok d ->
+  d_features d = filter (fun c => negb (mem_str c (d_metadata d)) &&
+                                  negb (existsb (fun rm => pc_miss columns rm c) rowsm)) columns /\
+  d_spectra_rows d = map (fun rm => map (pc_cell columns (fst rm)) (d_spectrum d)) rowsm /\
+  d_targets d = map (fun rm => let v := pc_cell columns (fst rm) (d_target d) in
+                               if lb then negb (v =? 0)%Z else (v =? 1)%Z) rowsm /\
+  length (d_spectra_rows d) = length rowsm /\ length (d_targets d) = length rowsm.
+Proof.
+  intros Hcr Hcc Hne H. rewrite read_rc_as_read in H by assumption.
+  pose proof (read_features _ _ _ _ _ _ _ Hcc H) as HF.
+  destruct (read_rows _ _ _ _ _ _ _ Hcc H) as (HS & HT & HL).
+  rewrite map_map in HS, HT. rewrite map_length in HL.
+  split; [|split; [exact HS|split; [exact HT|split; [rewrite HS; apply map_length|exact HL]]]].
+  rewrite HF. apply filter_ext. intros c. rewrite mem_nan_cols. reflexivity.
+Qed.
+
+Theorem read_rc_success ec cr cc columns o lb rowsm k targets :
+  1 <= cr -> 1 <= cc -> rowsm <> [] \/ ec = true ->
+  pc_classify columns o = Ok k ->
+  pc_convert_targets lb (map (fun rm => pc_cell columns (fst rm) (k_label k)) rowsm) = Ok targets ->
+  exists d, pc_read_rc ec cr cc columns o lb rowsm = Ok d.
+Proof.
+  intros Hcr Hcc Hne Hk Ht. rewrite read_rc_as_read by assumption.
+  apply (read_success cc columns o lb _ _ k targets Hcc Hk). rewrite map_map. exact Ht.
+Qed.
+
+(* the premise "at least one row chunk" is needed: a reader that yields no chunk for a table without
+   rows (pyarrow) makes the parse fail (pd.concat([])), whatever the chunk sizes *)
+Theorem read_rc_no_chunk cr cc columns o lb k :
+  pc_classify columns o = Ok k -> pc_read_rc false cr cc columns o lb [] = Err EValue.
+Proof.
+  intros Hk. unfold pc_read_rc. rewrite Hk. cbn [bind]. unfold pc_scan_rc.
+  destruct (Nat.eqb cc 0) eqn:Ecc; [reflexivity|]. destruct (Nat.eqb cr 0); [reflexivity|].
+  unfold pc_scan_with. cbv zeta. rewrite Ecc. cbn [pc_row_chunks].
+  rewrite flat_map_map.
+  assert (forall l : list (list str), flat_map (fun x => fst (pc_slice_rc columns k [] x)) l = []) as ->; [|reflexivity].
+  intros l. induction l as [|x l IH]; [reflexivity|]. cbn [flat_map]. rewrite IH.
+  unfold pc_slice_rc. cbv zeta. cbn [fst map]. destruct (pc_subset _ x); reflexivity.
+Qed.
+
+(* ... whereas the text readers' single empty chunk gives a dataset without entries *)
+Theorem read_rc_empty_chunk cr cc columns o lb k :
+  1 <= cr -> 1 <= cc -> pc_classify columns o = Ok k ->
+  exists d, pc_read_rc true cr cc columns o lb [] = Ok d /\ d_spectra_rows d = [] /\ d_targets d = [].
+Proof.
+  intros Hcr Hcc Hk.
+  assert (pc_convert_targets lb (map (fun rm : pc_rowm => pc_cell columns (fst rm) (k_label k)) []) = Ok []) as Ht
+    by (destruct lb; reflexivity).
+  destruct (read_rc_success true cr cc columns o lb [] k [] Hcr Hcc (or_intror eq_refl) Hk Ht) as (d & Hd).
+  exists d. split; [exact Hd|].
+  destruct (read_rc_result _ _ _ _ _ _ _ _ Hcr Hcc (or_intror eq_refl) Hd) as (_ & HS & HT & _).
+  split; assumption.
+Qed.
+
+Theorem scan_rc_zero ec cc k columns lb rowsm : pc_scan_rc ec 0 cc k columns lb rowsm = Err EValue.
+Proof. unfold pc_scan_rc. destruct (Nat.eqb cc 0); reflexivity. Qed.
+
+(* ---- the early exit of seeded/C10-4 (NOT the code; a variant to show what the theorem excludes):
+   the row-chunk loop is left as soon as every column of the slice is known to be incomplete.  For a
+   slice of identifier columns only that is after the first row chunk (all() of nothing). ---- *)
+Fixpoint pc_early_loop (columns cols : list str) (acc : list bool) (chunks : list (list pc_rowm))
+  : list (list pc_rowm) * list bool :=
+  match chunks with
+  | [] => ([], acc)
+  | ch :: rest =>
+      let acc' := pc_or_row acc (pc_any_row columns cols ch) in
+      if forallb (fun b : bool => b) acc' then ([ch], acc')
+      else let (seen, a) := pc_early_loop columns cols acc' rest in (ch :: seen, a)
+  end.
+
+Definition pc_slice_early (columns : list str) (k : pc_class) (chunks : list (list pc_rowm)) (sl : list str)
+  : list (list (list Z * Z)) * list str :=
+  let ids := k_spectra k ++ [k_label k] in
+  let has_ids := pc_subset ids sl in
+  let cols := if has_ids then filter (fun c => negb (mem_str c ids)) sl else sl in
+  let (seen, any) := pc_early_loop columns cols (map (fun _ => false) cols) chunks in
+  ((if has_ids then map (pc_frame columns k) seen else []), map fst (filter snd (combine cols any))).
+
+Definition pc_read_early (ec : bool) (cr cc : nat) (columns : list str) (o : pc_opts) (lb : bool)
+           (rowsm : list pc_rowm) : result pc_dataset :=
+  bind (pc_classify columns o) (fun k =>
+    if Nat.eqb cr 0 then Err EValue else
+    pc_scan_with (pc_slice_early columns k) cc k columns lb (pc_row_chunks ec cr rowsm)).
+
+(* SpecId Label ScanNr ExpMass f1 f2 Peptide Proteins *)
+Definition rc_ex_cols : list str :=
+  [ [83;112;101;99;73;100]; [76;97;98;101;108]; [83;99;97;110;78;114]; [69;120;112;77;97;115;115];
+    [102;49]; [102;50]; [80;101;112;116;105;100;101]; [80;114;111;116;101;105;110;115] ]%Z.
+Definition rc_ex_opts := {| o_filename := None; o_calcmass := None; o_expmass := None; o_rt := None; o_charge := None |}.
+Definition rc_ex_none : list bool := [false;false;false;false;false;false;false;false].
+(* three rows; f2 is missing in the second row only *)
+Definition rc_ex_rows : list pc_rowm :=
+  [ ([1;1;7;9;0;0;5;6]%Z, rc_ex_none);
+    ([2;-1;8;9;0;0;5;6]%Z, [false;false;false;false;false;true;false;false]);
+    ([3;1;6;4;0;0;5;6]%Z, rc_ex_none) ].
+
+(* two features + three identifier columns at column chunk size 2: slices [f1;f2] and [ScanNr;ExpMass;Label],
+   the second one holds identifier columns only *)
+Lemma rc_ex_slices :
+  pc_chunks_with_ids [[102;49];[102;50]]%Z [[83;99;97;110;78;114];[69;120;112;77;97;115;115];[76;97;98;101;108]]%Z 2
+  = [[[102;49];[102;50]]; [[83;99;97;110;78;114];[69;120;112;77;97;115;115];[76;97;98;101;108]]]%Z.
+Proof. vm_compute. reflexivity. Qed.
+
+Theorem early_exit_refuted :
+  exists columns o lb rowsm cc d1 d3,
+    pc_read_early true 1 cc columns o lb rowsm = Ok d1 /\
+    pc_read_early true 3 cc columns o lb rowsm = Ok d3 /\
+    length (d_spectra_rows d1) = 1 /\ length (d_spectra_rows d3) = 3 /\ length rowsm = 3 /\
+    pc_read_rc true 1 cc columns o lb rowsm = pc_read_rc true 3 cc columns o lb rowsm.
+Proof.
+  exists rc_ex_cols, rc_ex_opts, false, rc_ex_rows, 2.
+  destruct (pc_read_early true 1 2 rc_ex_cols rc_ex_opts false rc_ex_rows) as [d1|] eqn:E1; [|vm_compute in E1; discriminate].
+  destruct (pc_read_early true 3 2 rc_ex_cols rc_ex_opts false rc_ex_rows) as [d3|] eqn:E3; [|vm_compute in E3; discriminate].
+  exists d1, d3. vm_compute in E1. vm_compute in E3. injection E1 as <-. injection E3 as <-.
+  repeat split.
+Qed.
